@@ -21,6 +21,10 @@ ACTUAL = {"IntString": "int", "FloatString": "float", "BooleanString": "bool", "
           "IsoDatetimeString": "datetime"}
 
 
+PAT_EXAMPLES = {r"k\d+": ["k1", "k22"], r"[a-z]+": ["abc", "zed"], r"k1\d*|k2\d*": ["k1", "k25"], r"sec\d": ["sec1", "sec2"],
+                r"node_\d+": ["node_1", "node_2"], r"\d+_\d+": ["2020_01", "7_7"]}
+
+
 def yaml_dump(obj, path):
     import ruamel.yaml as yaml
     y = yaml.YAML(typ="safe", pure=True)
@@ -154,7 +158,19 @@ def gen_case(rng, i):
     if rng.random() < 0.25 and allkeys:
         o["dkf"] = rng.sample(allkeys, min(len(allkeys), 2))
     if rng.random() < 0.3:
-        o["dkr"] = rng.sample([r"k\d+", r"[a-z]+", r"k1\d*|k2\d*", r"sec\d", r"node_\d+", r"\d+_\d+"], rng.choice([1, 2, 2, 3]))
+        o["dkr"] = rng.sample(list(PAT_EXAMPLES), rng.choice([1, 2, 2, 3]))
+        if len(o["dkr"]) >= 2 and fmt == "json":
+            # an object whose keys are covered by the union of the patterns but by no single one (must stay a model),
+            # next to objects covered by one pattern each (mappings)
+            a, b = o["dkr"][:2]
+            keys = [rng.choice(PAT_EXAMPLES[a]), rng.choice(PAT_EXAMPLES[b])]
+            if not any(all(re.fullmatch(p, k) for k in keys) for p in o["dkr"]):
+                for pth, doc in files:
+                    tgt = doc if isinstance(doc, dict) else (doc[0] if isinstance(doc, list) and doc and isinstance(doc[0], dict) else None)
+                    if tgt is not None and not any(k in tgt for k in ("data", "a", "result")):
+                        tgt["union_only"] = {keys[0]: 1.5, keys[1]: 2.5}
+                        tgt["single_a"] = {k: 1 for k in PAT_EXAMPLES[a]}
+                        break
     return {"i": i, "fmt": fmt, "files": files, "args": args, "expect": expect, "o": o, "names": names}
 
 
